@@ -221,6 +221,15 @@ def leftmostname(node):
     return rtn
 
 
+def _deleted_names(targ):
+    """Names unbound by a ``del`` target: ``del n``, ``del (n, m)``, ``del [n]``."""
+    if isinstance(targ, Name):
+        yield targ.id
+    elif isinstance(targ, Tuple | List):
+        for elt in targ.elts:
+            yield from _deleted_names(elt)
+
+
 def get_lineno(node, default=0):
     """Gets the lineno of a node or returns the default."""
     return getattr(node, "lineno", default)
@@ -784,8 +793,8 @@ class CtxAwareTransformer(NodeTransformer):
     def visit_Delete(self, node):
         """Handle visiting a del statement."""
         for targ in node.targets:
-            if isinstance(targ, Name):
-                self.ctxremove(targ.id)
+            for name in _deleted_names(targ):
+                self.ctxremove(name)
         self.generic_visit(node)
         return node
 
